@@ -748,6 +748,7 @@ func newEngine(prog *ssa.Program, run *RunSpec, ts *TierSpec, knownIDs map[strin
 	}
 	e.initDeny = map[string]bool{}
 	e.preemptOK = map[*ssa.Function]bool{}
+	e.harnessFn = map[*ssa.Function]bool{}
 	for _, p := range defaultInit {
 		e.initAllow[p] = true
 	}
